@@ -63,7 +63,7 @@ Definition do_steps (opss : list (list op)) (sch : list nat) (fl : list bool) : 
 Definition do_guard (l r : list str) : str :=
   let mk := map (fun k => ((PCas, k), @nil ascii)) in
   let w0 := empty_world [] [] in
-  let w := mkW (mk l) (locB w0) (mk r) (wmemo w0) (rfl w0) (lfl w0) in
+  let w := mkW (mk l) (locB w0) (mk r) (wmemo w0) (wstored w0) (rfl w0) (lfl w0) in
   if local_sub_remote w MA then L "true" else L "false".
 
 Definition run_case (c : case) : str :=
